@@ -64,8 +64,17 @@ func (d *Decrypter) processMessage(device *model.Device, decoded server.LoRaMess
 
 	// Update frame counter with the next expected message.
 	if decoded.Payload.MACPayload.FHDR.FCnt >= device.FCntUp {
-		device.FCntUp = decoded.Payload.MACPayload.FHDR.FCnt + 1
-		if err := d.context.Storage.UpdateDeviceState(*device); err != nil {
+		// The check above was made on a copy of the device row; the store repeats it
+		// together with the write, so that a copy of this frame handled at the same time
+		// (or a later frame that overtook this one) cannot be accepted as well.
+		fcnt := decoded.Payload.MACPayload.FHDR.FCnt
+		device.FCntUp = fcnt + 1
+		err := d.context.Storage.AdvanceFCntUp(device.DeviceEUI, fcnt, device.FCntUp, device.KeyWarning)
+		if err == storage.ErrNotFound && !device.RelaxedCounter {
+			lg.Info("Frame counter %d for device %s has been used already. Ignoring message.", fcnt, device.DeviceEUI)
+			return
+		}
+		if err != nil && err != storage.ErrNotFound {
 			lg.Warning("Unable to update frame counters for device with EUI %s: %v. Ignoring message.", device.DeviceEUI, err)
 			return
 		}
